@@ -13,6 +13,7 @@
   it is the model.
 -/
 import Y0.Lemmas.CfIdcStar
+import Y0.Lemmas.CfIdcCollapse
 import Y0.Lemmas.CfTermC
 
 namespace Y0
@@ -463,6 +464,8 @@ theorem exchangeOutcomes_names (cf : MG Var) (outcomes : Event) (c : Var) (val :
     obtain ⟨q, hq, rfl⟩ := (mem_keys_ofList ps k).1 hk
     obtain ⟨p, hp, hfp⟩ := mapM_ok_mem_idc _ _ _ hps q hq
     refine ⟨p.1, (mem_keys_iff' _ _).2 ⟨p, hp, rfl⟩, ?_⟩
+    unfold exchangeKey at hfp
+    simp only [bind, Except.bind, pure, Except.pure] at hfp
     cases ha : cf.ancestorsInclusive [p.1] with
     | error e => rw [ha] at hfp; cases hfp
     | ok anc =>
@@ -509,9 +512,10 @@ def idcStarO : Nat → Event → Event → Option (Except Err Expr)
           match (newOutcomesAndConditions kordf nev outcomes conditions).2.get? c with
           | none => some (.error (.internal "KeyError"))
           | some val =>
-            match exchangeOutcomes cf (newOutcomesAndConditions kordf nev outcomes conditions).1 c val with
+            match exchangeStep cf (newOutcomesAndConditions kordf nev outcomes conditions).1 c val with
             | .error e => some (.error e)
-            | .ok no' =>
+            | .ok none => some (.ok .zero)
+            | .ok (some no') =>
               idcStarO fuel no' ((newOutcomesAndConditions kordf nev outcomes conditions).2.filter (fun p => p.1 ≠ c))
         | .ok none =>
           some (idcLine5 ordf dordf G (newOutcomesAndConditions kordf nev outcomes conditions).1
@@ -552,11 +556,14 @@ theorem idcStarFuel_eq_idcStarO (fuel : Nat) (outcomes conditions : Event) :
               | none => rfl
               | some val =>
                 simp only
-                cases hx : exchangeOutcomes cf (newOutcomesAndConditions kordf nev outcomes conditions).fst c1 val with
+                cases hx : exchangeStep cf (newOutcomesAndConditions kordf nev outcomes conditions).fst c1 val with
                 | error err => rfl
-                | ok no' =>
-                  simp only
-                  exact ih _ _
+                | ok on =>
+                  cases on with
+                  | none => rfl
+                  | some no' =>
+                    simp only
+                    exact ih _ _
             | none =>
               simp only [idcLine5, bind, Except.bind, pure, Except.pure]
 
@@ -599,9 +606,13 @@ theorem idcStarO_isSome {kordf : List Var → List Var} (hk : SubsetOrder kordf)
               | none => rfl
               | some val =>
                 simp only
-                cases hx : exchangeOutcomes cf (newOutcomesAndConditions kordf nev O C).fst c1 val with
+                cases hx0 : exchangeStep cf (newOutcomesAndConditions kordf nev O C).fst c1 val with
                 | error err => rfl
-                | ok no' =>
+                | ok on =>
+                  cases on with
+                  | none => rfl
+                  | some no' =>
+                  have hx := exchangeStep_some _ _ _ _ _ hx0
                   simp only
                   have hsubkeys : ∀ k ∈ Event.keys ((newOutcomesAndConditions kordf nev O C).snd.filter (fun p => p.1 ≠ c1)),
                       k ∈ (newOutcomesAndConditions kordf nev O C).snd.keys := by
